@@ -62,7 +62,8 @@ def gen_script(r, tier, idx):
         # the FIRST connection is made over a link so bad that no ping is answered for longer than the
         # not-responding timeout while still connecting; it completes; later the spa goes away
         # (the slow phase ends the moment CONNECTED is reached; no ping has been answered by then)
-        phases = [Phase("slowconnect", 400, r.choice([7, 8, 9])), Phase("blackout", 560)]
+        # (9 of the 10 attempts of each of the four steps: well over the not-responding timeout plus a ping period)
+        phases = [Phase("slowconnect", 500, 9), Phase("blackout", 560)]
     elif kind == "blackout-near-tick":
         # active timing profile (forced pump-running snapshot): the outage begins just before the
         # periodic refresh / facade update, whose retrying requests then hold the protocol lock
